@@ -320,6 +320,139 @@ def build_marker_templates(chk):
     return out
 
 
+# ---- compile errors of every kind in templates that the LOADER hands out at render time (include / extends / import / from) ----
+BROKEN = [   # (text of the bad line, the error is on that line)
+    ("{{ 'abc", False), ("{{ € }}", True), ("{% nope %}", True), ("{{ 1 + }}", True), ("{{ \"\\xZZ\" }}", True), ("{{ \"é\\u12\" }}", True),
+    ("{% set x = '日本\\400' %}", True), ("{% endfor %}", True), ("{% for x in %}", True), ("{{ 99999999999999999999999999999999999999999 }}", True),
+    ("{% macro m(a, a) %}{% endmacro %}", True), ("{% raw %}", False), ("{#", False), ("{{ 'x' 'y\\ud800' }}", True), ("{% set a.b = 1 %}", True),
+    ("{% block q %}{% endblock %}{% block q %}{% endblock %}", True), ("{{ (1, }}", True), ("{{ 1_ }}", True), ("{% if x %}", False),
+]
+LAZY_CONSTRUCTS = [
+    ("lazy-include", ["a\n{% include 't1' %}\n", "@"]),
+    ("lazy-include-nested", ["a\n{% include 't1' %}\n", "\n\n{% include 't2' %}", "@"]),
+    ("lazy-from-import", ["{% from 't1' import m %}\n{{ m() }}", "@"]),
+    ("lazy-import-as", ["x\n{% import 't1' as lib %}", "@"]),
+    ("lazy-extends", ["{% extends 't1' %}\n{% block b %}{% endblock %}", "@"]),
+    ("lazy-include-in-loop", ["{% for x in seq %}\n{% include 't1' %}{% endfor %}", "@"]),
+    ("lazy-include-in-macro", ["{% macro m() %}\n{% include 't1' %}{% endmacro %}\n\n{{ m() }}", "@"]),
+    ("lazy-include-in-child-block", ["{% extends 't1' %}\n{% block b %}\n{% include 't2' %}{% endblock %}", "p{% block b %}{% endblock %}", "@"]),
+    ("lazy-include-list", ["{% include ['nope', 't1'] %}", "@"]),
+    ("lazy-include-in-call-block", ["{% macro m() %}{{ caller() }}{% endmacro %}\n{% call m() %}\n{% include 't1' %}{% endcall %}", "@"]),
+]
+LAZY_BODIES = ["@", "x\ny\n@\nz\n", "é€\n\n{{ 1 }} @ tail\n", "{% macro m() %}{% endmacro %}\n@"]
+
+
+def build_lazy_groups(chk):
+    rng = chk.rng
+    groups = []
+    for cname, tpls in LAZY_CONSTRUCTS:
+        which = len(tpls) - 1
+        for bad, on_line in BROKEN:
+            for body in (LAZY_BODIES if chk.thorough else [LAZY_BODIES[0], rng.choice(LAZY_BODIES[1:])]):
+                at = body.index("@")
+                pre, post = body[:at], body[at + 1:]
+                pline = 1 + pre.count("\n")
+
+                def mk(segs):
+                    ts = [[(1, x)] for x in tpls]
+                    ts[which] = segs
+                    return ts
+                variants = [{"n": 0, "h": 0, "pb": 0, "hb": 0, "at": 0, "tpls": mk([(1, pre + bad + post)])}]
+                nl = rng.choice([1, 2, 17])
+                pad = rng.choice(["x\n", "p€d é\n", "\n"])
+                variants.append({"n": nl, "h": 0, "pb": nl * blen(pad), "hb": 0, "at": 0, "where": "top", "pad": pad,
+                                 "tpls": mk([(nl, pad), (1, pre + bad + post)])})
+                g = {"family": "runtime", "matrix": True, "construct": cname, "plant": bad + " in " + repr(body), "which": which, "pkind": 0,
+                     "flags": rng.choice(WS_ALL) if rng.chance(1, 4) else 0, "variants": variants}
+                if on_line:
+                    g.update({"pline": pline, "pend": pline, "pstart": pline})
+                else:
+                    g.update({"pline": 1, "pend": 10 ** 9, "pstart": 1})      # reported where the input ends
+                groups.append(g)
+    return groups
+
+
+# ---- the recursion limit tripping at every depth: self-importing / self-including templates, recursive macros and loops ----
+REC_TPLS = [   # (templates, line of the recursive construct in t0)
+    (["{% import 't0' as x %}"], 1), (["{% from 't0' import y %}"], 1), (["a\n\n{% import 't0' as x %}"], 3), (["a{{ 1 }}\n{% from 't0' import y %}"], 2),
+    (["{% include 't0' %}"], 1), (["x\n{% include 't1' %}", "\n{% import 't0' as q %}"], None), (["{% macro m() %}{{ m() }}{% endmacro %}\n{{ m() }}"], None),
+    (["\n{% for x in [[[[[[[[[[[[]]]]]]]]]]]] recursive %}{{ loop(x) }}\n{% endfor %}"], None),
+    (["{% set ns = namespace() %}\n{% with a = 1 %}{% with b = 2 %}\n{% import 't0' as x %}{% endwith %}{% endwith %}"], 3),
+]
+
+
+def build_recursion_groups(chk):
+    groups = []
+    for ti, (tpls, line) in enumerate(REC_TPLS):
+        for limit in range(1, 61 if chk.thorough else 31):
+            g = {"family": "runtime", "matrix": True, "construct": "recursion-%d" % ti, "plant": "recursion_limit=%d" % limit, "which": 0, "pkind": 0,
+                 "flags": 512 | (limit << 12), "variants": [{"n": 0, "h": 0, "pb": 0, "hb": 0, "at": 0, "tpls": [[(1, x)] for x in tpls]}]}
+            if line is not None:
+                g.update({"pline": line, "pend": line, "pstart": line})
+            groups.append(g)
+    return groups
+
+
+# ---- garbage inside a valid template: P + g + R with P + R valid and g a character no token starts with, planted between the
+# tokens of a tag: the only legitimate error is the lexer's, at g ----
+GARBAGE_BASES = BASES + BASES_MB + [
+    "a\nb {{ 'x'\n\n }}", "{% if a\n == 'y'\n %}\nq{% endif %}", "{{ [1,\n 'two' ,\n 3] }}", "{{ 'a'\n 'b'\n }}é", "{% set v = \"s\"\n\n %}\n{{ v\n|upper }}",
+    "{{ {'k':\n 'v'}\n['k'] }}", "x {{- 'p' ~\n 'q' -}} y\n{% for i in\n seq %}{{ i }}{% endfor %}"]
+
+
+def build_garbage_groups(chk, token_spans):
+    """token_spans[i] = [(kind, start_byte, end_byte)] of GARBAGE_BASES[i] (from the tokenizer run)"""
+    rng = chk.rng
+    groups = []
+    for bi, base in enumerate(GARBAGE_BASES):
+        raw = base.encode("utf8")
+        offs = set()
+        after_str = set()
+        prev_kind = 0
+        for kind, a, b in token_spans[bi]:
+            if kind != 0:
+                if kind not in (1, 3):   # in front of the tag start the text is still data
+                    offs.add(a)
+                    if prev_kind == 6:
+                        after_str.add(a)
+                if kind not in (2, 4):   # after the end of the tag the text is data again
+                    offs.add(b)
+                    if kind == 6:
+                        after_str.add(b)
+            prev_kind = kind
+        offs = sorted(offs)
+        if not chk.thorough:
+            offs = [o for o in offs if rng.chance(1, 2)]
+        for o in offs:
+            gch = rng.choice(["?", "€", "$", "`", "\\"]) if not chk.thorough else None
+            for gch in ([gch] if gch else ["?", "€", "$", "`", "\\"]):
+                text = (raw[:o] + gch.encode("utf8") + raw[o:]).decode("utf8")
+                line = 1 + raw[:o].count(b"\n")
+                groups.append({"family": "syntax", "base": "garbage-%d" % bi, "mutation": "garbage %r at byte %d" % (gch, o), "which": 0, "flags": rng.choice([0, 0, 2, 16, 32, 48]),
+                               "garbage": [line, o, o + blen(gch)], "after_string": o in after_str, "variants": [{"n": 0, "h": 0, "pb": 0, "hb": 0, "at": 0, "tpls": [[(1, text)]]}]})
+    return groups
+
+
+# ---- source prefixes: BOM, zero-width / format characters, NUL, CR / CRLF first lines: every range moves by the bytes of the prefix ----
+SRC_PREFIXES = ["\ufeff", "\u200b", "\u2060", "a\ufeffb", "\x00", "\ufeff\ufeff", "\ufeffé", "\r\n", "\r", "\ufeff\r\n", "\u200b\r", "\n\ufeff"]
+
+
+def add_prefix_variants(chk, groups, num, den):
+    rng = chk.rng
+    for g in groups:
+        if g["family"] not in ("syntax", "runtime") or (g.get("flags", 0) >> 12) or not rng.chance(num, den):
+            continue
+        w = g["which"]
+        base = g["variants"][0]["tpls"]
+        if text_of(base[w]) == "":
+            continue
+        for pfx in ([rng.choice(SRC_PREFIXES)] if not chk.thorough else [rng.choice(SRC_PREFIXES[:7]), rng.choice(SRC_PREFIXES[7:])]):
+            ts = [list(x) for x in base]
+            ts[w] = [(1, pfx)] + ts[w]
+            n = pfx.count("\n")
+            g["variants"].append({"n": n, "h": 0 if n else 1, "pb": blen(pfx) if n else 0, "hb": 0 if n else blen(pfx), "at": 0, "where": "top", "pad": pfx, "prefix": True, "tpls": ts})
+
+
 def build_runtime_groups(chk):
     groups = []
     rng = chk.rng
@@ -680,8 +813,18 @@ def check_group(g, outs):
     if base is None or base[1][0] == 9:
         return fails
     bstage, berrs = base[1]
+    # garbage between the tokens of an otherwise valid template: the error is the lexer's, at the garbage
+    if "garbage" in g:
+        gl, ga, gb = g["garbage"]
+        if bstage != 1 or not berrs:
+            fails.append(("an illegal character inside a tag produced no load error", 0))
+        else:
+            e = berrs[0]
+            if (e["line"], e["rs"]) != (gl, ga):
+                fails.append(("an illegal character planted on line %d (byte %d) of an otherwise valid template is reported on line %d (range %d..%d)"
+                              % (gl, ga, e["line"], e["rs"], e["re"]), 0))
     # planted run-time error: the root cause is reported in the planted template at the planted line
-    if g["family"] == "runtime":
+    if g["family"] == "runtime" and "pline" in g:
         if bstage == 0 or not berrs:
             if not g.get("matrix"):
                 fails.append(("the planted failure produced no error", 0))
@@ -774,8 +917,21 @@ def main():
         else:
             groups, tokcases, tabcases = [], [], [rp["case"]]
     else:
-        groups = (build_syntax_groups(chk) + build_eoi_groups(chk) + build_literal_groups(chk) + build_runtime_groups(chk) + build_matrix_groups(chk) + build_lineending_groups(chk)
+        # tokenizer pre-pass over the valid bases of the garbage family (where their tags' tokens start and end)
+        pre = prun([bin_path("c14", False)], [case_tok([(1, b)]) for b in GARBAGE_BASES])
+        gspans = []
+        for o in pre:
+            sp = []
+            if o and o[0] == 0:
+                for k in range(o[1]):
+                    r = o[2 + 7 * k: 9 + 7 * k]
+                    sp.append((r[0], r[3], r[6]))
+            gspans.append(sp)
+        groups = (build_syntax_groups(chk) + build_eoi_groups(chk) + build_literal_groups(chk) + build_garbage_groups(chk, gspans) + build_runtime_groups(chk)
+                  + build_matrix_groups(chk) + build_lazy_groups(chk) + build_recursion_groups(chk) + build_lineending_groups(chk)
                   + build_expr_groups(chk) + build_fuel_groups(chk))
+        add_prefix_variants(chk, groups, 1, 1 if chk.thorough else 4)
+        add_prefix_variants(chk, [g for g in groups if g.get("construct", "").startswith("lazy-")], 1, 1)
         tabcases = build_table_cases(chk)
         tokcases = None
 
@@ -1018,10 +1174,22 @@ def main():
     # one report per class of failure (digits / quoted parts of the message dropped), at most 12
     seen_cls = collections.Counter()
     kf = chk.match_known(lambda k: k["id"] == "empty-expression-unlocated")
+    kf_str = chk.match_known(lambda k: k["id"] == "lexer-error-after-string-swallowed")
+    kf_imp = chk.match_known(lambda k: k["id"] == "import-first-instructions-stale-line")
     for gi, fails in pipe_fail:
         g = groups[gi]
         blank_expr = bool(g.get("flags", 0) & 64) and text_of(g["variants"][0]["tpls"][0]).strip() == ""
+        imp_rec = g.get("construct", "").startswith("recursion-") and any(("{% import" in text_of(t) or "{% from" in text_of(t)) for t in g["variants"][0]["tpls"])
         for what, vi in fails:
+            if kf_str and g.get("after_string") and what.startswith("an illegal character planted"):
+                chk.known_finding(kf_str["id"], "a lexer error right after a string literal is swallowed: %r reports the end of the input on the line of the string"
+                                  % text_of(g["variants"][0]["tpls"][0]))
+                continue
+            if kf_imp and imp_rec and ("is not located (name=0 line=0)" in what or "does not name a template and a line (name=0 line=0)" in what
+                                       or ": line 0 outside the" in what or what.startswith("planted in t0 line")):
+                chk.known_finding(kf_imp["id"], "recursion limit tripping on the first instructions of an import: %r with %s reports no line / the line of the previous statement"
+                                  % (text_of(g["variants"][0]["tpls"][0]), g["plant"]))
+                continue
             if kf and blank_expr and ("does not name a template and a line (name=0 line=0)" in what
                                       or ": line 0 outside the" in what or ": line 0 but the range starts on line" in what
                                       or (what.startswith("inserting") and "expected (kind,name,line,range)=(4, 0, 0," in what)):
